@@ -267,6 +267,7 @@ Ltac lens :=
              rewrite (listrel_length _ _ _ _ H)
          | H : lrels _ ?x1 ?x2 |- context [List.length ?x1] => rewrite (listrel_length _ _ _ _ H)
          | H : framerel _ (pairs ?m1) (pairs ?m2) |- context [ohas ?k ?m1] => rewrite (ohas_rel _ k _ _ H)
+         | H : order ?m1 = order ?m2 |- context [order ?m1] => rewrite H
          end.
 
 Ltac sstep :=
